@@ -20,6 +20,8 @@ CONSTANTS
     MaxPanics = 1
     FixF2 = TRUE
     FixF3 = TRUE
+    InitEnc = "proto"
+    MaxMigrations = 0
 VIEW view
 INVARIANTS
     TypeOK
@@ -34,5 +36,7 @@ INVARIANTS
     ModOnlyPanicking
     ModSkippedEverywhere
     ModProgress
+    EncUniform
+    SnapshotsReadable
 ACTION_CONSTRAINT EmitEdge
 CHECK_DEADLOCK FALSE
